@@ -236,8 +236,6 @@ class C03(Prop):
     def run_overlap(self, recipe):
         """Two threads overlap: B's whole hit happens while A's hit is inside collection (harness-owned schedule)."""
         out = Outcome()
-        out.cls('overlapping_threads')
-        out.nontrivial = True
         lab.reset_world()
         rendered = progs.render(OVERLAP_PROG)
         a_line = [st_ for st_ in rendered.stmts if st_['func'] == 'f0' and st_['kind'] == 'mark'][0]['line']
@@ -259,7 +257,12 @@ class C03(Prop):
         rec.mark()
         res = progs.run_program(OVERLAP_PROG, rendered, tracer=ip.trace, values=[SpawnOnStr()])
         if 'TB' not in res.thread_results:
-            raise lab.HarnessError('thread B did not run inside the collection of thread A')
+            # the schedule could not be set up (thread A's snapshot did not render the gate value): nothing to judge;
+            # the floor on 'overlapping_threads' makes sure this does not happen silently on the unchanged tree
+            lab.reset_world()
+            return out
+        out.cls('overlapping_threads')
+        out.nontrivial = True
         exp = sorted(a for tp in tps for a in actions_of(tp))
         got = sorted(rec.since_mark())
         if ip.agent_raised:
